@@ -320,6 +320,52 @@ theorem decorateMember_frame (w w' : World) (bases : List ClsId) (key : String) 
           (T := (Member.prop g s d).mentions) (fun f hf => ⟨2, by simp [memberFnId, hf]⟩)
         exact (f1.trans f2).trans f3
 
+/-- dropping the checkers of functions that had none before keeps a frame a frame -/
+theorem Frame.dropNew {S : FnId → Prop} {w w' : World} (h : Frame S w w') :
+    Frame S w { w' with checkers := w'.checkers.filter (fun p => (w.checker? p.1).isSome) } := by
+  refine ⟨h.heap, h.classes, h.hooks, ?_⟩
+  intro f hf
+  have hk := h.checkers f hf
+  show (List.find? (fun x => x.1 == f) (w'.checkers.filter (fun p => (w.checker? p.1).isSome))).map (·.2) = w.checker? f
+  rw [List.find?_filter]
+  cases hw : w.checker? f with
+  | none =>
+    have : List.find? (fun a => decide ((w.checker? a.1).isSome = true ∧ (a.1 == f) = true)) w'.checkers = none := by
+      apply List.find?_eq_none.mpr
+      intro a _ hcon
+      simp only [decide_eq_true_eq, beq_iff_eq] at hcon
+      rw [hcon.2, hw] at hcon
+      simp at hcon
+    rw [this]; rfl
+  | some ck =>
+    have hfun : (fun a : FnId × CheckerObj => decide ((w.checker? a.1).isSome = true ∧ (a.1 == f) = true)) = (fun a => a.1 == f) := by
+      funext a
+      by_cases ha : a.1 = f
+      · simp [ha, hw]
+      · simp [ha]
+    rw [hfun]
+    have : w'.checker? f = some ck := by rw [hk, hw]
+    exact this
+
+/-- **What a rejected class statement leaves behind stays inside its own namespace**: no class, no hook registration and
+no checker of a function that is not a member of the refused class changes -/
+theorem defineClassResidue_frame (bases : List ClsId) (ns : List (String × Member)) (w : World) :
+    Frame (fun f => ∃ p ∈ ns, p.2.mentions f) w (defineClassResidue w bases ns) := by
+  induction ns generalizing w with
+  | nil => exact Frame.refl _ _
+  | cons p ns ih =>
+    obtain ⟨key, m⟩ := p
+    unfold defineClassResidue
+    cases hd : decorateMember w bases key m with
+    | error e => exact Frame.refl _ _
+    | ok w' =>
+      have f1 := ((decorateMember_frame _ _ _ _ _ hd).dropNew).mono
+        (T := fun f => ∃ q ∈ (key, m) :: ns, q.2.mentions f) (fun f hf => ⟨(key, m), List.mem_cons_self, hf⟩)
+      have f2 := (ih { w' with checkers := w'.checkers.filter (fun p => (w.checker? p.1).isSome) }).mono
+        (T := fun f => ∃ q ∈ (key, m) :: ns, q.2.mentions f)
+        (fun f ⟨q, hq, hm⟩ => ⟨q, List.mem_cons_of_mem _ hq, hm⟩)
+      exact f1.trans f2
+
 theorem nsPass_frame (bases : List ClsId) (ns : List (String × Member)) (w w' : World)
     (h : ns.foldlM (fun w (p : String × Member) => decorateMember w bases p.1 p.2) w = .ok w') :
     Frame (fun f => ∃ p ∈ ns, p.2.mentions f) w w' := by
